@@ -7,7 +7,7 @@ import re
 
 from ..common import gen_write
 from ..rustscan import ExtractError, read, mask, block_after, match_arms, match_brace
-from .c02_util import fn_body
+from .c02_util import fn_body, read_code
 
 AE = "prqlc/prqlc/src/semantic/ast_expand.rs"
 SE = "prqlc/prqlc/src/semantic/resolver/static_eval.rs"
@@ -46,7 +46,7 @@ def strip_comments(src):
 
 
 def fn_text(rel, name):
-    src = read(rel)
+    src = read_code(rel)
     m = mask(src)
     s, e = fn_body(src, m, name)
     return squeeze(strip_comments(src)[s:e])
@@ -54,7 +54,7 @@ def fn_text(rel, name):
 
 def extract():
     info = {}
-    src = read(AE)
+    src = read_code(AE)
     m = mask(src)
     s, e = fn_body(src, m, "expand_binary")
     body, mbody = src[s:e], m[s:e]
@@ -79,7 +79,7 @@ def extract():
     head = squeeze(mbody[:mm.start()])
     if head != "letleft=expand_expr(*left)?;letright=expand_expr(*right)?;":
         raise ExtractError("expand_binary: prologue changed")
-    ut = squeeze(mask(read(UT)))
+    ut = squeeze(mask(read_code(UT)))
     if "pubfnnew_binop(left:Expr,op_name:&[&str],right:Expr)->Expr{Expr::new(ExprKind::FuncCall(FuncCall{name:Box::new(Expr::new(Ident::from_path(op_name.to_vec()))),args:vec![left,right],named_args:Default::default(),}))}" not in ut:
         raise ExtractError("new_binop changed")
     # unary
@@ -108,7 +108,7 @@ def extract():
     sh = {}
     for rel, name in ((SE, "static_eval_rq_operator"), (SE, "static_eval_case"), (SE, "maybe_static_eval"), (SE, "is_temporal")):
         sh[name] = hashlib.sha1(fn_text(rel, name).encode()).hexdigest()
-    trs = read(TR)
+    trs = read_code(TR)
     mt = mask(trs)
     mm = re.search(r'"in"\s*=>\s*\{', trs)
     if not mm:
@@ -116,7 +116,7 @@ def extract():
     a = mm.end() - 1
     b = match_brace(mt, a)
     sh["in"] = hashlib.sha1(squeeze(strip_comments(trs)[a:b]).encode()).hexdigest()
-    pps = read(PP)
+    pps = read_code(PP)
     mp_ = mask(pps)
     s, e = block_after(pps, mp_, r"impl\s+RqFold\s+for\s+Normalizer\b")
     sh["normalizer"] = hashlib.sha1(squeeze(strip_comments(pps)[s:e]).encode()).hexdigest()
